@@ -23,9 +23,11 @@ RULE = ('Hypothesis RuleBasedStateMachine over an agent process that links /repo
 ASSUME = ['Linux tmpfs semantics of the POSIX mirror calls are the reference ("the corresponding POSIX operations")',
           'rights are mapped to open(2) access modes as wasi.c documents (read|write -> O_RDWR, write -> O_WRONLY, else O_RDONLY)']
 
-NONTRIVIAL = ('positional_then_sequential', 'multi_iovec_with_empty', 'offset>=2^32', 'append', 'unstable_seek')
+NONTRIVIAL = ('positional_then_sequential', 'multi_iovec_with_empty', 'offset>=2^32', 'offset>=2^63', 'append', 'unstable_seek')
 OFFSETS = st.one_of(st.integers(0, 4096), st.sampled_from([0, 1, 99, (1 << 31) - 1, 1 << 31, (1 << 32) - 1, 1 << 32, (1 << 32) + 5,
-                                                          1 << 33, 1 << 40, (1 << 63) - 1]))      # offsets >= 2^63 have no POSIX counterpart (off_t is signed)
+                                                          1 << 33, 1 << 40, (1 << 63) - 1,
+                                                          # the full 64-bit range: as off_t these are negative (POSIX: EINVAL)
+                                                          1 << 63, (1 << 63) + 1, (1 << 64) - 4096, (1 << 64) - 2, (1 << 64) - 1]))
 BUFS = st.lists(st.binary(min_size=0, max_size=48), min_size=0, max_size=6)
 LENS = st.lists(st.sampled_from([0, 1, 2, 7, 16, 100]), min_size=0, max_size=6)
 
@@ -36,6 +38,10 @@ class C12Machine(RuleBasedStateMachine):
     def __init__(self):
         super().__init__()
         self.ex = wasifs.FsExecutor(npreopen=1)
+
+    @initialize(mode=st.sampled_from([0, 0, 1, 2, 3, 5, 7]))
+    def edge(self, mode):
+        self.ex.set_edge(mode)
 
     @rule(target=fds, name=st.sampled_from(wasifs.FILE_NAMES), creat=st.booleans(), excl=st.booleans(), trunc=st.booleans(),
           directory=st.sampled_from([False, False, False, True]), read=st.booleans(), write=st.booleans(),
